@@ -785,6 +785,248 @@ theorem backwardCensored_eq (f b : ℝ → Option ℝ) (y c t : ℝ) (h : f c = 
   unfold backwardCensored
   simp only [h, NanTest.isNaN, Bool.false_eq_true, if_false, hm]
 
+/-! ### arrays and objects -/
+
+/-- a method pair that round-trips on `dom` round-trips on every array with entries in `dom` (any length) -/
+theorem onArray_roundtrip (f b : ℝ → Option ℝ) (dom : ℝ → Prop)
+    (h : ∀ x, dom x → (f x).bind b = some x) (xs : List ℝ) (hx : ∀ x ∈ xs, dom x) :
+    bindArray b (onArray f xs) = xs.map some := by
+  unfold bindArray onArray
+  rw [List.map_map]
+  apply List.map_congr_left
+  intro x hxm
+  exact h x (hx x hxm)
+
+/-- BoxCox1lam object, arrays of any length, from ANY inner state: `forward` then `backward` returns the array -/
+theorem BoxCox1lam.state_array_backward_forward (s : BoxCox1lam.State ℝ) (nu : ℝ) (hnu : s.nu = some nu)
+    (xs : List ℝ) (hx : ∀ x ∈ xs, 0 < x + nu) :
+    ∃ s1 ys s2, BoxCox1lam.State.forwardArr s xs = .ok (s1, ys.map some) ∧
+      BoxCox1lam.State.backwardArr s1 ys = .ok (s2, xs.map some) ∧
+      ys = xs.map (BoxCox2.fwd ⟨nu, s.lam, s.bc.mininu⟩) := by
+  cases s with
+  | mk lam nu' bc =>
+    cases hnu
+    refine ⟨⟨lam, some nu, ⟨nu, lam, bc.mininu⟩⟩, xs.map (BoxCox2.fwd ⟨nu, lam, bc.mininu⟩),
+      ⟨lam, some nu, ⟨nu, lam, bc.mininu⟩⟩, ?_, ?_, rfl⟩
+    · simp [BoxCox1lam.State.forwardArr, BoxCox1lam.State.sync, Except.map, onArray, BoxCox2.forward, List.map_map,
+        Function.comp_def]
+    · simp only [BoxCox1lam.State.backwardArr, BoxCox1lam.State.sync, Except.map, onArray, BoxCox2.backward,
+        List.map_map, Function.comp_def]
+      congr 2
+      apply List.map_congr_left
+      intro x hxm
+      rw [BoxCox2.bwd_fwd _ (hx x hxm)]
+
+theorem BoxCox1lam.state_array_unset (s : BoxCox1lam.State ℝ) (xs : List ℝ) (hnu : s.nu = none) :
+    BoxCox1lam.State.forwardArr s xs = .error .nuUnset ∧ BoxCox1lam.State.backwardArr s xs = .error .nuUnset ∧
+    BoxCox1lam.State.jacobianArr s xs = .error .nuUnset := by
+  cases s with
+  | mk lam nu' bc => cases hnu; exact ⟨rfl, rfl, rfl⟩
+
+theorem BoxCox1nu.state_array_backward_forward (s : BoxCox1nu.State ℝ) (lam : ℝ) (hlam : s.lam = some lam)
+    (xs : List ℝ) (hx : ∀ x ∈ xs, 0 < x + s.nu) :
+    ∃ s1 ys s2, BoxCox1nu.State.forwardArr s xs = .ok (s1, ys.map some) ∧
+      BoxCox1nu.State.backwardArr s1 ys = .ok (s2, xs.map some) ∧
+      ys = xs.map (BoxCox2.fwd ⟨s.nu, lam, s.bc.mininu⟩) := by
+  cases s with
+  | mk nu lam' bc =>
+    cases hlam
+    refine ⟨⟨nu, some lam, ⟨nu, lam, bc.mininu⟩⟩, xs.map (BoxCox2.fwd ⟨nu, lam, bc.mininu⟩),
+      ⟨nu, some lam, ⟨nu, lam, bc.mininu⟩⟩, ?_, ?_, rfl⟩
+    · simp [BoxCox1nu.State.forwardArr, BoxCox1nu.State.sync, Except.map, onArray, BoxCox2.forward, List.map_map,
+        Function.comp_def]
+    · simp only [BoxCox1nu.State.backwardArr, BoxCox1nu.State.sync, Except.map, onArray, BoxCox2.backward,
+        List.map_map, Function.comp_def]
+      congr 2
+      apply List.map_congr_left
+      intro x hxm
+      rw [BoxCox2.bwd_fwd _ (hx x hxm)]
+
+theorem BoxCox1nu.state_array_unset (s : BoxCox1nu.State ℝ) (xs : List ℝ) (hlam : s.lam = none) :
+    BoxCox1nu.State.forwardArr s xs = .error .lamUnset ∧ BoxCox1nu.State.backwardArr s xs = .error .lamUnset ∧
+    BoxCox1nu.State.jacobianArr s xs = .error .lamUnset := by
+  cases s with
+  | mk nu lam' bc => cases hlam; exact ⟨rfl, rfl, rfl⟩
+
+/-- BoxCox2sym object on arrays, from any inner state: `forward` then `backward` returns the array -/
+theorem BoxCox2sym.state_array_backward_forward (s : BoxCox2sym.State ℝ) (hnu : 0 < s.nu) (xs : List ℝ) :
+    ∃ ys, (BoxCox2sym.State.forwardArr s xs).2 = ys.map some ∧
+      (BoxCox2sym.State.backwardArr (BoxCox2sym.State.forwardArr s xs).1 ys).2 = xs.map some := by
+  refine ⟨xs.map (BoxCox2sym.fwd ⟨s.nu, s.lam, s.bc.mininu⟩), ?_, ?_⟩
+  · simp [BoxCox2sym.State.forwardArr, BoxCox2sym.State.sync, BoxCox2sym.State.params, onArray,
+      BoxCox2sym.forward, List.map_map, Function.comp_def]
+  · simp only [BoxCox2sym.State.forwardArr, BoxCox2sym.State.backwardArr, BoxCox2sym.State.sync,
+      BoxCox2sym.State.params, onArray, List.map_map]
+    apply List.map_congr_left
+    intro x _
+    have h := BoxCox2sym.backward_forward ⟨s.nu, s.lam, s.bc.mininu⟩ x hnu
+    simpa [BoxCox2sym.forward] using h
+
+/-- LogSinh / Manly objects on arrays: with the constant set the object is its parameter vector -/
+theorem LogSinh.state_array_backward_forward (s : LogSinh.State ℝ) (xm : ℝ) (hxm : s.xmax = some xm)
+    (hp : LogSinh.admissible ⟨s.loga, s.logb, xm⟩) (xs : List ℝ) (hx : ∀ x ∈ xs, LogSinh.dom ⟨s.loga, s.logb, xm⟩ x) :
+    ∃ ys, LogSinh.State.forwardArr s xs = .ok ys ∧
+      bindArray (LogSinh.backward ⟨s.loga, s.logb, xm⟩) ys = xs.map some ∧
+      (∀ zs, LogSinh.State.backwardArr s zs = .ok (onArray (LogSinh.backward ⟨s.loga, s.logb, xm⟩) zs)) := by
+  cases s with
+  | mk a b xm' =>
+    cases hxm
+    refine ⟨onArray (LogSinh.forward ⟨a, b, xm⟩) xs, rfl, ?_, fun _ => rfl⟩
+    exact onArray_roundtrip _ _ _ (fun x hx => LogSinh.backward_forward ⟨a, b, xm⟩ x hp hx) xs hx
+
+theorem Manly.state_array_backward_forward (s : Manly.State ℝ) (xm : ℝ) (hxm : s.xmax = some xm)
+    (hp : Manly.admissible ⟨s.lam, xm⟩) (xs : List ℝ) :
+    ∃ ys, Manly.State.forwardArr s xs = .ok ys ∧
+      bindArray (Manly.backward ⟨s.lam, xm⟩) ys = xs.map some ∧
+      (∀ zs, Manly.State.backwardArr s zs = .ok (onArray (Manly.backward ⟨s.lam, xm⟩) zs)) := by
+  cases s with
+  | mk l xm' =>
+    cases hxm
+    refine ⟨onArray (Manly.forward ⟨l, xm⟩) xs, rfl, ?_, fun _ => rfl⟩
+    exact onArray_roundtrip _ _ (fun _ => True) (fun x _ => Manly.backward_forward ⟨l, xm⟩ x hp) xs
+      (fun _ _ => trivial)
+
+theorem LogSinh.state_array_unset (s : LogSinh.State ℝ) (xs : List ℝ) (h : s.xmax = none) :
+    LogSinh.State.forwardArr s xs = .error .xmaxUnset ∧ LogSinh.State.backwardArr s xs = .error .xmaxUnset ∧
+    LogSinh.State.jacobianArr s xs = .error .xmaxUnset := by
+  cases s with
+  | mk a b xm => cases h; exact ⟨rfl, rfl, rfl⟩
+
+theorem Manly.state_array_unset (s : Manly.State ℝ) (xs : List ℝ) (h : s.xmax = none) :
+    Manly.State.forwardArr s xs = .error .xmaxUnset ∧ Manly.State.backwardArr s xs = .error .xmaxUnset ∧
+    Manly.State.jacobianArr s xs = .error .xmaxUnset := by
+  cases s with
+  | mk l xm => cases h; exact ⟨rfl, rfl, rfl⟩
+
+/-! ### Softmax: 2-D image side, rejections, dimensions -/
+
+/-- image side on 2-D arrays: every row in the image set ⇒ accepted and recovered -/
+theorem Softmax.forwardM_backwardM (rows : List (List ℝ)) (hc : ∀ r ∈ rows, Softmax.codom r) :
+    Softmax.backwardM rows >>= Softmax.forwardM = .ok rows := by
+  show Softmax.forwardM (rows.map Softmax.bwdRow) = .ok rows
+  have h1 : (rows.map Softmax.bwdRow).any Softmax.anyNeg = false := by
+    rw [List.any_eq_false]
+    intro r hr
+    obtain ⟨r0, _, rfl⟩ := List.mem_map.mp hr
+    unfold Softmax.anyNeg
+    rw [Bool.not_eq_true, List.any_eq_false]
+    intro x hx
+    have := Softmax.bwdRow_pos r0 x hx
+    simp [not_lt.mpr this.le]
+  have h2 : (rows.map Softmax.bwdRow).any Softmax.sumTooBig = false := by
+    rw [List.any_eq_false]
+    intro r hr
+    obtain ⟨r0, hr0, rfl⟩ := List.mem_map.mp hr
+    unfold Softmax.sumTooBig
+    rw [Bool.not_eq_true, decide_eq_false_iff_not, not_lt]; exact (hc r0 hr0).2
+  simp only [Softmax.forwardM, h1, h2, Bool.false_eq_true, if_false, List.map_map]
+  have : ∀ r ∈ rows, (Softmax.fwdRow ∘ Softmax.bwdRow) r = id r := fun r _ => Softmax.fwdRow_bwdRow r
+  rw [List.map_congr_left this, List.map_id]
+
+/-- the image set, explicitly: only the sum of the exponentials is constrained -/
+theorem Softmax.codom_iff (ys : List ℝ) :
+    Softmax.codom ys ↔ (ys.map Real.exp).sum / (1 + (ys.map Real.exp).sum) ≤ 1 - eps := by
+  have hsum : Softmax.sumL (Softmax.bwdRow ys) = (ys.map Real.exp).sum / (1 + (ys.map Real.exp).sum) := by
+    rw [sumL_eq]
+    simp only [Softmax.bwdRow, sumL_eq, sum_map_div]
+    rfl
+  unfold Softmax.codom Softmax.dom
+  rw [hsum]
+  exact ⟨fun h => h.2, fun h => ⟨Softmax.bwdRow_pos ys, h⟩⟩
+
+/-- 2-D arrays: a negative entry in any row, or any row sum above `1 - EPS`, rejects the whole array -/
+theorem Softmax.forwardM_rejects (rows : List (List ℝ))
+    (h : (∃ r ∈ rows, ∃ x ∈ r, x < 0) ∨ (∃ r ∈ rows, 1 - eps < Softmax.sumL r)) :
+    ∃ e, Softmax.forwardM rows = .error e := by
+  unfold Softmax.forwardM
+  by_cases h1 : rows.any Softmax.anyNeg = true
+  · exact ⟨_, by rw [if_pos h1]⟩
+  · rw [if_neg h1]
+    rcases h with ⟨r, hr, x, hx, hneg⟩ | ⟨r, hr, hs⟩
+    · exfalso; apply h1
+      rw [List.any_eq_true]
+      refine ⟨r, hr, ?_⟩
+      unfold Softmax.anyNeg
+      rw [List.any_eq_true]
+      exact ⟨x, hx, by simpa using hneg⟩
+    · have h2 : rows.any Softmax.sumTooBig = true := by
+        rw [List.any_eq_true]
+        exact ⟨r, hr, by unfold Softmax.sumTooBig; simpa using hs⟩
+      exact ⟨_, by rw [if_pos h2]⟩
+
+/-- more than two dimensions are rejected before anything else; up to two, the 2-D functions apply -/
+theorem Softmax.forwardND_rejects (ndim : Nat) (rows : List (List ℝ)) (h : 2 < ndim) :
+    Softmax.forwardND ndim rows = .error .ndimGt2 ∧ Softmax.backwardND ndim rows = .error .ndimGt2 ∧
+    Softmax.jacobianND ndim rows = .error .ndimGt2 := by
+  simp [Softmax.forwardND, Softmax.backwardND, Softmax.jacobianND, h]
+
+theorem Softmax.forwardND_le_two (ndim : Nat) (rows : List (List ℝ)) (h : ndim ≤ 2) :
+    Softmax.forwardND ndim rows = Softmax.forwardM rows ∧ Softmax.backwardND ndim rows = Softmax.backwardM rows := by
+  have : ¬ 2 < ndim := by omega
+  simp [Softmax.forwardND, Softmax.backwardND, this]
+
+/-! ### LogSinh: the image set, explicitly -/
+
+theorem LogSinh.codom_iff (p : LogSinh.Params ℝ) (y : ℝ) (hp : LogSinh.admissible p) :
+    LogSinh.codom p y ↔
+      LogSinh.b p * eps < LogSinh.b p * y + Real.log (1 + Real.sqrt (1 + Real.exp (-2 * (LogSinh.b p * y)))) := by
+  have hxm : p.xmax ≠ 0 := by
+    have h := hp.2.2.2.2; have := eps_pos; intro h0; rw [h0] at h; linarith
+  have hb : 0 < LogSinh.b p := Real.exp_pos _
+  unfold LogSinh.codom LogSinh.dom LogSinh.inDom
+  rw [decide_eq_true_iff]
+  simp only [LogSinh.bwd, transc_log, transc_sqrt, transc_exp]
+  generalize Real.log (1 + Real.sqrt (1 + Real.exp (-2 * (LogSinh.b p * y)))) = M
+  have e : p.xmax * (y + (M - LogSinh.a p) / LogSinh.b p) / p.xmax = y + (M - LogSinh.a p) / LogSinh.b p := by
+    field_simp
+  rw [e]
+  constructor
+  · intro h
+    have h2 : eps < y + M / LogSinh.b p := by
+      have : (M - LogSinh.a p) / LogSinh.b p = M / LogSinh.b p - LogSinh.a p / LogSinh.b p := by ring
+      rw [this, neg_div] at h; linarith
+    have := mul_lt_mul_of_pos_left h2 hb
+    rw [mul_add, mul_div_cancel₀ _ hb.ne'] at this
+    exact this
+  · intro h
+    have h2 : eps < y + M / LogSinh.b p := by
+      rw [← sub_pos]
+      have : y + M / LogSinh.b p - eps = (LogSinh.b p * y + M - LogSinh.b p * eps) / LogSinh.b p := by
+        field_simp
+      rw [this]; exact div_pos (by linarith) hb
+    have : (M - LogSinh.a p) / LogSinh.b p = M / LogSinh.b p - LogSinh.a p / LogSinh.b p := by ring
+    rw [this, neg_div]; linarith
+
+/-! ### get_transform: every keyword reaches the parameter / constant / constructor argument it names -/
+
+theorem route_ctor : ∀ c ∈ catalogue, ∀ k ∈ c.ctorArgs, route c k = .ctor := by decide
+theorem route_param : ∀ c ∈ catalogue, ∀ k ∈ c.params, route c k = .param := by decide
+theorem route_const : ∀ c ∈ catalogue, ∀ k ∈ c.constants, route c k = .const := by decide
+/-- a keyword naming nothing of the class is ignored, never an error and never another class's parameter -/
+theorem route_ignored (c : ClassSpec) (k : String) (h1 : k ∉ c.ctorArgs) (h2 : k ∉ c.params) (h3 : k ∉ c.constants) :
+    route c k = .ignored := by
+  simp [route, h1, h2, h3]
+theorem lookupClass_known : ∀ c ∈ catalogue, lookupClass c.name = .ok c := by decide
+theorem lookupClass_unknown (name : String) (h : ∀ c ∈ catalogue, c.name ≠ name) :
+    lookupClass name = .error .unknownName := by
+  unfold lookupClass
+  have : catalogue.find? (fun c => c.name == name) = none := by
+    rw [List.find?_eq_none]
+    intro c hc
+    simpa using h c hc
+  rw [this]
+
+/-! ### floating point (outside the proofs) -/
+
+/-- what the property says about the float64 code, for one class (BoxCox2 shown; the other classes are analogous):
+inside the conditioning region the Float instance of the model returns `x` to 1e-6. The real theorems above are the
+exact-arithmetic part of this statement; the rounding part is not provable here (Lean's `Float` operations are opaque)
+and is carried by the correspondence (model's Float instance = numpy up to the propagated bound) and by the oracle. -/
+def BoxCox2.float_roundtrip_statement : Prop :=
+  ∀ (p : BoxCox2.Params Float) (x : Float),
+    0 < x + p.nu → (p.lam * Float.log (x + p.nu)).abs ≤ 13.8 → 1e-9 < p.lam.abs →
+    ((BoxCox2.bwd p (BoxCox2.fwd p x)) - x).abs ≤ 1e-6 * (if x.abs < p.nu.abs then p.nu.abs else x.abs)
+
 /-! ### non-vacuity: every hypothesis above is met by concrete, non-trivial inputs -/
 
 example : Logit.dom (⟨0, 0⟩ : Logit.Params ℝ) (1 / 2) := by
